@@ -248,6 +248,18 @@ func (c *Ctx) LookupFunc(pkgPath, recv, name string) *FuncInfo {
 	if p == nil {
 		return nil
 	}
+	// a method that was turned into a package function of the same name is still the anchor (benign R1/b2)
+	asFunc := recv != ""
+	for _, f := range p.Syntax {
+		for _, d := range f.Decls {
+			if fd, ok := d.(*ast.FuncDecl); ok && fd.Name.Name == name && recvName(fd) != "" {
+				asFunc = false
+			}
+		}
+	}
+	if asFunc {
+		methodlessAnchor[pkgPath+"."+name] = true
+	}
 	for _, f := range p.Syntax {
 		for _, d := range f.Decls {
 			fd, ok := d.(*ast.FuncDecl)
@@ -255,7 +267,7 @@ func (c *Ctx) LookupFunc(pkgPath, recv, name string) *FuncInfo {
 				continue
 			}
 			r := recvName(fd)
-			if r != recv {
+			if r != recv && !(asFunc && r == "") {
 				continue
 			}
 			obj, _ := p.TypesInfo.Defs[fd.Name].(*types.Func)
